@@ -24,7 +24,8 @@ class Net:
     def avail(self, bid):
         coords, batches = self.sides[bid]
         low = min(self.ended[bid]) if self.ended[bid] else 0
-        return [(bid, i) for i, b in enumerate(batches) if b and self.ended[bid][i] <= low]
+        return [(bid, i) for i, b in enumerate(batches) if b and (self.ended[bid][i] <= low or
+                                                                  all(e.variant == 'Terminate' for e in b[0]))]
 
     def take(self, ex, bid, i):
         coords, batches = self.sides[bid]
